@@ -32,6 +32,13 @@ try:
             bad = {u: [f["id"] for f in r.failures if not f.get("lost_ghost") and not f.get("lost_closures")
                        and not [c for c in f.get("bare_closures", []) if c not in BASE["units"].get(u, {}).get("bare_closures", {}).get(f["fn"], [])]]
                    for u, r in res.items() if r.status == "failed"}
+            for u, r in res.items():
+                bu = BASE["units"].get(u, {})
+                if any(bu.get("item_text", {}).get(k) not in (None, h) for k, h in getattr(r, "item_text", {}).items()):
+                    bad.pop(u, None)
+                elif u in bad:
+                    fnq = {f["id"]: f["fn"] for f in r.failures}
+                    bad[u] = [i for i in bad[u] if getattr(r, "strlit_patterns", {}).get(fnq[i], 0) <= bu.get("strlit_patterns", {}).get(fnq[i], 0)]
             bad = {u: v for u, v in bad.items() if v}
             und = {u: r.reason.split("\n")[0][:160] + " | " + " ".join(r.reason.split("\n")[1:3])[:300] for u, r in res.items() if r.status == "undecided"}
             out[name] = dict(failed=bad, undecided=und)
